@@ -130,6 +130,8 @@ def gen_case(idx: int, seed: int, tier: str) -> Any:
         n["td_prepare"] = rng.randint(1, 3) if rng.random() < 0.8 else 0
         n["td_start"] = rng.randint(1, 3) if rng.random() < 0.8 else 0
         n["ct_start"] = rng.random() < 0.3
+        # ... which, every fourth time, decides at run time that it has nothing to clean up and returns before its yield
+        n["ct_no_yield"] = n["ct_start"] and rng.random() < 0.25
         n["svc_prepare"] = rng.choice([None, None, None, None, "function", "unhashable_object", "builtin", "raising"])
         n["svc_start"] = rng.choice([None, None, None, None, "function", "unhashable_object", "builtin", "raising"])
         n["sleep_prepare"] = rng.choice([0, 0.5, 1])
@@ -360,6 +362,9 @@ class Scenario:
                 @context_teardown
                 async def start(self: Any, ct_tid: int = ct_tid) -> Any:  # noqa: F811
                     await phase_body(path, "start")
+                    if node.get("ct_no_yield"):
+                        sc.log("ct-no-yield", path)
+                        return  # nothing of its own to tear down: the start-up goes on as after any other start()
                     sc.log("td-reg", ct_tid, by=path, phase="start-yield")
                     yield
                     sc.log("td-run", ct_tid, form="context_teardown")
@@ -502,6 +507,8 @@ def check(sc: Scenario) -> tuple[list[dict[str, Any]], dict[str, int]]:
                                    f"application must keep running until it is told to stop")
     if kind == "service_crash_after" and not any(e["kind"] == "service-crash" for e in ev):
         bad("app-ended-too-early", f"the application ended ({describe_outcome(o)}) before its service task crashed")
+    if any(e["kind"] == "ct-no-yield" for e in ev):
+        c["ctxteardown_starts_that_returned_before_their_yield"] = sum(1 for e in ev if e["kind"] == "ct-no-yield")
     if any(e["kind"] == "foreign-run-defined" for e in ev):
         c["non_cli_roots_with_a_method_named_run"] = 1
         if any(e["kind"] == "foreign-run-called" for e in ev):
